@@ -17,6 +17,7 @@
 import Gzx.Proofs.BitSource
 import Gzx.Proofs.OneDPost
 import Gzx.Proofs.TotalQR
+import Gzx.Proofs.TotalDM
 namespace Gzx.Properties.C06
 open Gzx Gzx.BitSource Gzx.OneDPost
 
@@ -299,5 +300,43 @@ example : parse [] [0x60] 1 .none = .error .format := by decide
 example : parse [] [0x78, 0x38, 0x40] 1 .none = .error .format := by decide
 
 end QRParse
+
+/-! ## Data Matrix DecodedBitStreamParser (model `Gzx.DMHighLevel.decodeText`, tied to the code by the
+     `c02 dm-dec` and `c06 dmparse` correspondence lines) -/
+
+section DMParse
+open Gzx.DMHighLevel Gzx.Proofs.TotalQR Gzx.Proofs.TotalDM
+
+/-- C06 for `DecodedBitStreamParser_decode`: for EVERY codeword list (every byte value, streams truncated
+    inside a C40/Text/X12 pair, an EDIFACT triple or a Base-256 header, Base-256 lengths pointing past
+    the end, an upper shift in last position, the pair (0,0) whose third value is −1) and every
+    character tables `T`: a text or FormatException — never a panic. -/
+theorem dm_parse_total (T : Tables) (cw : List Nat) :
+    (∃ t, decodeText T cw = .ok t) ∨ decodeText T cw = .error .format :=
+  decodeText_fmt T cw
+
+/-- the same for text plus symbology modifier -/
+theorem dm_parse_full_total (T : Tables) (cw : List Nat) :
+    (∃ t, decodeFull T cw = .ok t) ∨ decodeFull T cw = .error .format :=
+  decodeFull_fmt T cw
+
+theorem dm_parse_no_panic (T : Tables) (cw : List Nat) : ∀ w, decodeText T cw ≠ .error (.panic w) := by
+  intro w
+  rcases dm_parse_total T cw with ⟨t, h⟩ | h <;> rw [h] <;> simp
+
+/-- the boundary the proof had to argue about: a C40/Text value of −1 (pair (0,0)) reaches the decoder
+    only in shift state 0 or 1, where it is not used as a table index; in shift state 2 or 3 it would be
+    an index panic (model and code alike) -/
+example : cValueCore refTables true (-1) ⟨2, false⟩ = .error (.panic "index out of range (negative)") := by decide
+example : parseTwoBytes 0 0 = (0, 0, -1) := by decide
+example : decodeText refTables [239, 0, 2, 0, 0, 66] = .ok [0, 33, 255, 65] := by decide
+example : decodeText refTables [230, 0, 0] = .ok [0] := by decide
+example : decodeText refTables [231, 100, 1, 2] = .error .format := by decide   -- Base-256 length past the end
+example : decodeText refTables [235] = .ok [] := by decide                        -- upper shift in last position
+example : decodeText refTables [240, 1, 2] = .ok [0, 1] := by decide              -- EDIFACT tail
+example : decodeText refTables [238, 255, 255] = .error .format := by decide
+example : decodeText refTables [66, 67] = .ok [65, 66] := by decide
+
+end DMParse
 
 end Gzx.Properties.C06
